@@ -34,7 +34,8 @@ enum {
 #define NODRY_MAX 20
 #define PAIR_MAX_N 40
 /* environments */
-enum { ENV_STD, ENV_KT64, ENV_MMAP, ENV_GUARD, ENV_AFFIN, ENV_HUGE, ENV_LOG };
+/* (CPU affinity is compiled out in this configuration: no affinity environment) */
+enum { ENV_STD, ENV_KT64, ENV_MMAP, ENV_GUARD, ENV_HUGE, ENV_LOG };
 
 typedef struct {
     const char *group; /* config = group of scenarios */
@@ -135,17 +136,12 @@ static void c18_env(int envkind)
     unsetenv("ABT_KEY_TABLE_SIZE");
     unsetenv("ABT_STACK_OVERFLOW_CHECK");
     unsetenv("ABT_USE_LOG");
-    unsetenv("ABT_AFFINITY");
     unsetenv("ABT_MAX_NUM_XSTREAMS");
     switch (envkind) {
         case ENV_KT64: setenv("ABT_KEY_TABLE_SIZE", "64", 1); break;
         case ENV_MMAP: setenv("ABT_MEM_LP_ALLOC", "mmap_rp", 1); break;
         case ENV_HUGE: setenv("ABT_MEM_LP_ALLOC", "mmap_hp_thp", 1); break;
         case ENV_GUARD: setenv("ABT_STACK_OVERFLOW_CHECK", "mprotect", 1); break;
-        case ENV_AFFIN:
-            setenv("ABT_SET_AFFINITY", "1", 1);
-            setenv("ABT_AFFINITY", "{0,1},{2:2},3", 1);
-            break;
         case ENV_LOG: setenv("ABT_MAX_NUM_XSTREAMS", "2", 1); break;
         default: break;
     }
@@ -543,7 +539,7 @@ static void scenario_init(int cfg)
 static struct {
     const char *name;
     int quick, n;
-    int idx[10];
+    int idx[40];
 } groups[MAXGROUPS];
 static int ngroups;
 static char pairname[MAXGROUPS][96];
@@ -562,7 +558,7 @@ static void build_groups(void)
             snprintf(pairname[g], sizeof pairname[g], "pair:%s", scens[i].group);
             ngroups++;
         }
-        if (groups[g].n == 10 || groups[g].quick != scens[i].quick)
+        if (groups[g].n == 40 || groups[g].quick != scens[i].quick)
             abort(); /* table error */
         groups[g].idx[groups[g].n++] = i;
     }
@@ -575,7 +571,7 @@ static void scenario(int cfg)
 {
     int g = cfg % ngroups;
     abtmc_window_begin();
-    int si = abtmc_choose(groups[g].n, ABTMC_B_FREE);
+    int si = (int)choose_big(groups[g].n);
     abtmc_window_end();
     S = &scens[groups[g].idx[si]];
     if (S->flags & F_INIT)
